@@ -7,3 +7,13 @@ Proof.
   unfold extract_decision, extract_decision_src.
   destruct (r =? 0), (c =? 0), (r =? 1), (c =? 1), nm0, nm1; reflexivity.
 Qed.
+
+(* the index of a derived container is built without loc_is_iloc: label selection on it goes through its
+   own dictionary (the model decision SF.Select.derived_kind = KMap for every non-null key) *)
+Lemma derived_index_has_dictionary :
+  derived_index_passes_loc_is_iloc_src = false /\
+  forall (is_frame : bool) (k : ckey) (src : axkind), is_all k = false -> derived_kind is_frame k src = KMap.
+Proof.
+  split; [reflexivity|].
+  intros is_frame k src H. unfold derived_kind. rewrite H, Bool.andb_false_r. reflexivity.
+Qed.
